@@ -21,13 +21,19 @@ the queue is drained FIFO):
           Monitors only (no CasRow tie: the row has no version column, its writers are plain column UPDATEs): a history trigger on
           pipeline_executions (`_ep_whist`) — no committed write reverts is_canceled 1 -> 0, clears canceled_by / cancellation_reason or
           leaves a final status; C17 clause: once the cancel flag was committed it is still 1 at the end and no task execution begins
+  startmerge  StartStage(j) vs a persistent SignalStage(j) where j's OWN context holds keys that planning rewrites: `items` (a list two upstreams
+          also publish: own list extended by the ancestors' lists) and `score` (named in j's output_reducers: the upstream values are summed).
+          The signal handler's write lands between StartStage's claim commit and its plan commit; the merge-on-retry of the plan commit must
+          keep the PLANNED values.  Oracle (C16): the context handed to j's task equals what the un-raced in-order run hands over, keys
+          starting with `_` (signal mailbox, bookkeeping) aside
   startjoin  StartStage(j) vs CompleteStage(u_next) on a join stage j with 3 upstreams whose tracking list ALREADY names the upstreams
           completed in the prefix (DISCRIMINATOR / N_OF_M 1: u1; N_OF_M 2: u1, u2): the sibling's `_update_join_tracking` UPDATES the
           existing `_completed_branches` key between StartStage's claim commit and its plan commit (merge-on-retry of the plan commit)
   startsignal  StartStage(g) vs a SECOND persistent SignalStage(g), one persistent signal already buffered in the prefix: the signal handler
           UPDATES the existing `_buffered_signals` key inside StartStage's claim -> plan window
 
-The same schedules serve three properties (`start(ctx, prop)`; C17 runs the `wfrow` kinds only, with the cancel-flag oracle): C07 applies the lost-update oracles below, C06 applies its own oracle to
+The same schedules serve four properties (`start(ctx, prop)`; C17 runs the `wfrow` kinds only, with the cancel-flag oracle; C16 runs the
+`startmerge` kind only, with the planned-context oracle): C07 applies the lost-update oracles below, C06 applies its own oracle to
 the durable status audit of every schedule (`_mb_audit`: every committed status change of a stage / task / workflow row must be a
 legal transition of `stabilize.models.status.can_transition`; completed statuses have no successor).
 
@@ -57,7 +63,9 @@ SIG = {"join": "engine-pair:lost-update:join-tracking", "signal": "engine-pair:l
        "cancel": "engine-pair:reverted:cancel-vs-complete", "cancelrun": "engine-pair:reverted:cancel-vs-result",
        "startjoin": "engine-pair:lost-update:start-vs-join-tracking", "startsignal": "engine-pair:lost-update:start-vs-signal",
        "cancelstart": "engine-pair:reverted:cancel-vs-start", "twosignals": "engine-pair:lost-update:signal-vs-signal",
-       "wfrow": "engine-pair:reverted:workflow-row"}
+       "wfrow": "engine-pair:reverted:workflow-row", "startmerge": "engine-pair:lost-update:start-vs-signal"}
+SIG_PLANNED = "engine-pair:planned-context-lost:start-vs-signal"
+SEEN: list[tuple[str, dict]] = []      # (stage ref, context handed to the c07ctx task), kept outside the engine; cleared per schedule
 SIG_VERSION = "engine-pair:version-not-bumped-by-one"
 SIG_SEQ = "engine-pair:outcome-differs-from-both-sequential-orders"
 SIG_STUCK = "engine-pair:no-quiescence"
@@ -74,6 +82,8 @@ RULE = ("engine pairs (Mode B, exhaustive per scenario): join = fan-in u1..un ->
         "SignalStage(g) pending, raced against each other; startsignal also in a variant whose stage g has no task rows (nt=0); "
         "wfrow (the workflow row) = i -> d, either fresh with StartWorkflow pending or with every stage done and CompleteWorkflow pending, plus a pushed "
         "CancelWorkflow; raced StartWorkflow / CompleteWorkflow x CancelWorkflow; "
+        "startmerge = a1, a2 -> j -> d, the upstreams publishing items=[a1] / [a2] and score=3 / 4, j with own context items=[own], score=0 and "
+        "output_reducers score=sum, StartStage(j) pending and ready, one persistent SignalStage(j) pushed; raced StartStage(j) x SignalStage(j); "
         "startjoin (states WITH HISTORY) = fan-in u1..u3 -> j -> d, join DISCRIMINATOR / N_OF_M (threshold 1, 2), the first max(1, threshold) CompleteStage(u*) "
         "delivered in the prefix so that j's `_completed_branches` already exists and StartStage(j) is pending and ready, raced StartStage(j) x "
         "CompleteStage(next upstream) (thorough: the remaining CompleteStage nested as C); startsignal = g -> d with StartStage(g) pending, one persistent "
@@ -108,7 +118,7 @@ TRUSTED_BASE = ["engine pairs: the mapping store-level call log -> CasRow op lis
 
 @dataclass(frozen=True)
 class Scn:
-    kind: str                    # join | signal | cancel | cancelrun | cancelstart | twosignals | startjoin | startsignal | wfrow
+    kind: str                    # join | signal | cancel | cancelrun | cancelstart | twosignals | startjoin | startsignal | startmerge | wfrow
     n_up: int = 2                # join: upstream branches
     join: str = "DISCRIMINATOR"  # join: join type
     th: int = 0                  # join: threshold (N_OF_M)
@@ -134,10 +144,12 @@ class Scn:
             return "two-signals-taskless"
         if self.kind == "wfrow":
             return f"wfrow-{self.res}"
+        if self.kind == "startmerge":
+            return "start-merge-own-keys"
         return f"cancel-t{self.nt}"
 
     def contended(self) -> str:
-        return {"join": "j", "signal": "g", "cancel": "i", "cancelrun": "i", "cancelstart": "i", "startjoin": "j", "startsignal": "g", "twosignals": "g", "wfrow": "i"}[self.kind]
+        return {"join": "j", "signal": "g", "cancel": "i", "cancelrun": "i", "cancelstart": "i", "startjoin": "j", "startsignal": "g", "twosignals": "g", "wfrow": "i", "startmerge": "j"}[self.kind]
 
     def prefix_ups(self) -> int:
         """startjoin: upstream completions delivered before the race (the join is ready and its tracking key exists)"""
@@ -152,6 +164,8 @@ def scenarios(thorough: bool, prop: str = "C07") -> list[Scn]:
     wf = [Scn("wfrow", res="start"), Scn("wfrow", res="complete")]
     if prop == "C17":
         return wf
+    if prop == "C16":
+        return [Scn("startmerge")]
     s = list(wf)
     for join, th in (("DISCRIMINATOR", 0), ("N_OF_M", 1), ("N_OF_M", 2)):
         for n in (2, 3):
@@ -163,7 +177,8 @@ def scenarios(thorough: bool, prop: str = "C07") -> list[Scn]:
     s += [Scn("cancelstart", nt=1, res="direct"), Scn("cancelstart", nt=2, res="direct"), Scn("cancelstart", nt=1, res="workflow")]
     if prop != "C06":
         s += [Scn("startjoin", n_up=3, join="DISCRIMINATOR", th=0), Scn("startjoin", n_up=3, join="N_OF_M", th=1),
-              Scn("startjoin", n_up=3, join="N_OF_M", th=2), Scn("startsignal"), Scn("startsignal", nt=0), Scn("twosignals", nt=0)]
+              Scn("startjoin", n_up=3, join="N_OF_M", th=2), Scn("startsignal"), Scn("startsignal", nt=0), Scn("twosignals", nt=0),
+              Scn("startmerge")]
     return s
 
 
@@ -191,6 +206,8 @@ def directions(scn: Scn, thorough: bool) -> list[dict]:
         return out
     if scn.kind == "startsignal":
         return [{"a": "SS(g)", "b": "SG(g)"}, {"a": "SG(g)", "b": "SS(g)"}]
+    if scn.kind == "startmerge":
+        return [{"a": "SS(j)@0", "b": "SG(j)"}, {"a": "SG(j)", "b": "SS(j)@0"}]
     if scn.kind == "wfrow":
         h = "SW" if scn.res == "start" else "CW"
         # drain = lifo: after the pair the NEWEST pending message is delivered first (a legal delivery order: StartStage(i) pushed by StartWorkflow
@@ -244,6 +261,7 @@ def _env_class():
     class CtxTask(Task):
         def execute(self, stage):  # noqa: ANN001
             mb.LEDGER.append((stage.ref_id, "t"))
+            SEEN.append((stage.ref_id, json.loads(json.dumps(dict(stage.context), default=str))))
             n = sum(1 for x in mb.LEDGER if x[0] == stage.ref_id)
             if stage.context.get("_res") == "terminal":
                 return TaskResult.terminal("scripted terminal failure", context={"saved_by_task": "failed"})
@@ -361,6 +379,19 @@ class Lab:
             done = env.ctx_of("j").get("_completed_branches") or []
             if done != [f"u{k + 1}" for k in range(scn.prefix_ups())] or env.stage_row("j")["status"] != "NOT_STARTED":
                 raise RuntimeError(f"base state of {scn.key()} has no history: {env.state_line()}")
+        elif scn.kind == "startmerge":
+            ups = [StageExecution(ref_id=f"a{k}", type="noop", name=f"a{k}", context={}, outputs={"items": [f"a{k}"], "score": 2 + k},
+                                  tasks=[TaskExecution.create(name="t", implementing_class="ledger", stage_start=True, stage_end=True)],
+                                  requisite_stage_ref_ids=set()) for k in (1, 2)]
+            j = StageExecution(ref_id="j", type="noop", name="j", context={"items": ["own"], "score": 0}, output_reducers={"score": "sum"},
+                               tasks=[TaskExecution.create(name="t", implementing_class="c07ctx", stage_start=True, stage_end=True)],
+                               requisite_stage_ref_ids={"a1", "a2"})
+            env.create_workflow(ups + [j, mb.stage("d", {"j"})])
+            env.start()
+            env.drain(max_steps=40, hold=lambda c: c.startswith("SS(j)"))
+            env.push(SignalStage(execution_type=env.wf_type, execution_id=env.wf_id, stage_id=env.ids["j"], signal_name="s2",
+                                 signal_data={"n": 2}, persistent=True))
+            want = ["SG(j)", "SS(j)", "SS(j)"]
         elif scn.kind == "wfrow":
             env.create_workflow([mb.stage("i"), mb.stage("d", {"i"})])
             env.start()
@@ -416,6 +447,17 @@ class Lab:
                 "whist0": len(env.whist())}
         snap = mb.snapshot(env)
         self.env = env
+        if scn.kind == "startmerge":
+            # reference: the un-raced in-order run (no signal handled before j's task runs): what j's task is handed
+            mb.restore(env, snap)
+            _fix(env, meta)
+            del SEEN[:]
+            env.deliver(env.find("SS(j)")[0])
+            env.drain(max_steps=60, hold=lambda c: c.startswith("SG("))
+            got = [c for r_, c in SEEN if r_ == "j"]
+            if not got:
+                raise RuntimeError(f"reference run of {scn.key()}: j's task did not run: {env.state_line()}")
+            meta["ref_ctx"] = _own_keys(got[0])
         return env, snap, meta
 
 
@@ -425,6 +467,11 @@ def _row(e, code: str) -> int:
         base, k = code.split("@")
         return e.find(base)[int(k)]
     return e.find(code)[0]
+
+
+def _own_keys(ctx: dict) -> dict:
+    """the context without the engine's bookkeeping keys (`_buffered_signals`, `_hydrated_keys`, …); lists compared as sorted lists"""
+    return {k: (sorted(v, key=str) if isinstance(v, list) else v) for k, v in ctx.items() if not k.startswith("_")}
 
 
 def _fix(e, meta) -> None:
@@ -498,7 +545,10 @@ def _present(scn: Scn, ctx: dict, workers: list[str], successful: list[int]) -> 
     """which workers' modifications the contended row's context holds (worker number + 1)"""
     out = []
     for w, code in enumerate(workers):
-        if scn.kind == "twosignals":
+        if scn.kind == "startmerge":
+            here = code.startswith("SS(") or "s2" in [x.get("signal_name") for x in ctx.get("_buffered_signals") or []]
+            out += [w + 1] * (successful.count(w + 1) if here else 0)
+        elif scn.kind == "twosignals":
             want = "s1" if code.endswith("@0") else "s2"
             here = want in [x.get("signal_name") for x in ctx.get("_buffered_signals") or []]
             out += [w + 1] * (successful.count(w + 1) if here else 0)
@@ -555,6 +605,10 @@ def state_monitors(scn: Scn, env, when: str) -> list[tuple[str, str]]:
             if env.stage_row(u)["status"] in COMPLETE and u not in done:
                 hits.append((f"{when}: CompleteStage({u}) committed {u}'s completion but the join's _completed_branches is {done}: its branch record was lost",
                              SIG[scn.kind]))
+    elif scn.kind == "startmerge":
+        got = [x.get("signal_name") for x in env.ctx_of("j").get("_buffered_signals") or []]
+        if "s2" not in got:
+            hits.append((f"{when}: the persistent signal s2 was handled (nothing suspends, so it is not consumed) but stage j's mailbox holds {got}", SIG[scn.kind]))
     elif scn.kind in ("startsignal", "twosignals"):
         got = [x.get("signal_name") for x in env.ctx_of("g").get("_buffered_signals") or []]
         if not {"s1", "s2"} <= set(got):
@@ -673,6 +727,7 @@ def run_sched(lab: Lab, scn: Scn, snap, meta, d: dict, at: int, nest_at: int | N
             arm_b = {nest_at: e.deliver_op("C", _row(e, d["c"]))}
         return e.deliver_op("A", _row(e, d["a"]), {at: e.deliver_op("B", _row(e, d["b"]), arm_b)})
 
+    del SEEN[:]
     out = mb.run_schedule(env, snap, mk)
     sched = {"scn": asdict(scn), "dir": d, "at": at}
     if nest_at is not None:
@@ -708,6 +763,16 @@ def run_sched(lab: Lab, scn: Scn, snap, meta, d: dict, at: int, nest_at: int | N
     res["audit"] = [f"{k}:{'task' if k == 'T' else 'W' if k == 'C' else ent}:{old}>{new}" for k, ent, old, new in env.audit()[meta["audit0"]:]]
     res["c06"] = legality_monitors(scn, env, meta["audit0"])
     res["c17"] = []
+    res["c16"] = []
+    if scn.kind == "startmerge":
+        seen_j = [c for r_, c in SEEN if r_ == "j"]
+        res["seen"] = seen_j[:1]
+        if not seen_j:
+            res["c16"].append((f"stage j's task never ran after the pair ({env.state_line()})", SIG_STUCK))
+        elif _own_keys(seen_j[0]) != meta["ref_ctx"]:
+            res["c16"].append((f"the context handed to stage j's task is {_own_keys(seen_j[0])} but the un-raced in-order run hands over {meta['ref_ctx']} "
+                               f"(own list extended by the ancestors' lists, reducer key combined over the upstream branches): what planning wrote into "
+                               f"the stage's own keys was overwritten by the merge after the lost plan commit", SIG_PLANNED))
     hits = history_monitors(scn, hist) + race_hits + state_monitors(scn, env, "after the drain")
     if scn.kind == "wfrow":
         c07w, res["c17"] = workflow_monitors(scn, env, meta)
@@ -825,7 +890,7 @@ def finish(ctx, h) -> None:
         if "replay" in u:
             ctx.count({"enginepair-replay": u["file"]}, nontrivial=True)
             ctx.tag("pair:replay")
-            for what, sig in (r.get("c06", []) if prop == "C06" else r.get("c17", []) if prop == "C17" else r["violations"]):
+            for what, sig in (r.get("c06", []) if prop == "C06" else r.get("c17", []) if prop == "C17" else r.get("c16", []) if prop == "C16" else r["violations"]):
                 ctx.violation(f"{what} (regression corpus {u['file']})", sig, {"enginepair": r["sched"], "trace": r["trace"], "replay_file": u["file"]})
     digest(ctx, [r for u, r in zip(units, results) if "replay" not in u], prop)
     ep = ctx.extra.setdefault("engine_pairs", {})
@@ -884,6 +949,14 @@ def digest(ctx, results: list[dict], prop: str = "C07") -> None:
             ctx.tag(f"pair:{scn.kind}:cas-conflict-then-retry")
         replay_obj = {"enginepair": sched, "trace": r["trace"], "history_of_contended_row": r.get("history"), "status_audit": r.get("audit"),
                       "post_race": r.get("post_race"), "final": r.get("final"), "cas": {"request": r["line"], "observed": r["impl"]}}
+        if prop == "C16":
+            for what, sig in r.get("c16", []):
+                ctx.violation(f"{what}; schedule {_describe(sched)}", sig, {**replay_obj, "context_handed_to_task": r.get("seen")})
+            if "conflict" in (r["impl"] or "").split("#")[0]:
+                ctx.tag("pair:startmerge:plan-commit-lost-then-merged")
+            if r["inside"] and len([x for x in ctx.samples if "enginepair" in x]) < 2:
+                ctx.sample({"enginepair": sched, "context_handed_to_task": r.get("seen")})
+            continue
         if prop == "C17":
             ctx.tag("pair:cancel-" + ("accepted" if any("c1" in w.split("->")[1] for w in r.get("whistory", [])) else "not-accepted(workflow already final)"))
             for what, sig in r.get("c17", []):
@@ -970,7 +1043,9 @@ def replay(ctx, body, prop: str = "C07") -> int:
     print("  durable status changes (race + drain), in commit order:", " ".join(r.get("audit", [])))
     if r.get("whistory") is not None:
         print("  committed writes of the workflow row (status/is_canceled), in commit order:", " ".join(r["whistory"]), "| task executions after the snapshot:", r.get("ledger"))
-    hits = r.get("c06", []) if prop == "C06" else r.get("c17", []) if prop == "C17" else r["violations"]
+    if r.get("seen") is not None:
+        print("  context handed to j's task:", r["seen"])
+    hits = r.get("c06", []) if prop == "C06" else r.get("c17", []) if prop == "C17" else r.get("c16", []) if prop == "C16" else r["violations"]
     for what, sig in hits:
         print(f"PROPERTY FAILS: {what}  [{sig}]")
     if not hits:
